@@ -18,6 +18,10 @@
 //!   mates names refs recs     one slice through set_mates/write_mate and read_mate/resolve_mates: obs = the
 //!                             FLAG/RNEXT/PNEXT/TLEN columns read back and the CF/NF series of the file
 //!                             (model: NV.CramRec.Mates), see shared/c07_mates.rs
+//!   big series n len enc target blocks
+//!                             large slices whose block sizes sweep the ITF8 width boundaries of the block
+//!                             header size fields: walk + round trip, obs = container header fields
+//!                             (model: NV.CramRec.Container), see shared/c07_big.rs
 //!   shdr rps lns refs recs    a stream of records through the real writer: obs = reference context, record count,
 //!                             record counter (and embedded-reference id, MD5 flag) of every container header and
 //!                             slice header as read by the independent walker (model: NV.CramRec.SliceHeader),
@@ -1290,6 +1294,9 @@ mod mates;
 #[path = "../shared/c07_shdr.rs"]
 mod shdr;
 
+#[path = "../shared/c07_big.rs"]
+mod big;
+
 fn generate(rng: &mut Rng, tier: &str, w: &mut CaseWriter) {
     cgen::generate(rng, tier, w);
     let n_mates = if tier == "thorough" { 15000 } else { 700 };
@@ -1300,6 +1307,7 @@ fn generate(rng: &mut Rng, tier: &str, w: &mut CaseWriter) {
     for _ in 0..n_shdr {
         shdr::push_shdr(rng, w);
     }
+    big::push_big(rng, tier, w);
 }
 
 fn run(c: &Case) -> Obs {
@@ -1309,6 +1317,7 @@ fn run(c: &Case) -> Obs {
         "cont" => run_cont(c),
         "mates" => mates::run_mates(c),
         "shdr" => shdr::run_shdr(c),
+        "big" => big::run_big(c),
         k => Obs::fail("-", "harness-unknown-kind", k),
     }
 }
